@@ -273,22 +273,24 @@ type Sim struct {
 	finished int32
 	TableID  string
 
-	Last       *pokertable.Table // latest snapshot seen (clone)
-	LastStatus pokertable.TableStateStatus
-	GateArmed  *GateSetup // set when a gate event was consumed, cleared on open
-	Hands      []*Hand
-	Cur        *Hand
-	Errors     []error // OnTableErrorUpdated
-	FirstGame  bool    // OnReadyOpenFirstTableGame seen and not yet handled
-	Stall      string  // why the driver gave up ("" = fine)
-	StepWait   time.Duration
-	Trace      []string // abstract trace for fingerprints
-	LabelSet   map[string]bool
-	CreateErr  error
-	SkipAct    bool // the current turn was already played by a hook
-	Resync     bool // skip queued decision snapshots that are older than the engine's current state
-	deckMode   int
-	deckSeed   int
+	Last            *pokertable.Table // latest snapshot seen (clone)
+	LastStatus      pokertable.TableStateStatus
+	GateArmed       *GateSetup // set when a gate event was consumed, cleared on open
+	Hands           []*Hand
+	Cur             *Hand
+	Errors          []error // OnTableErrorUpdated
+	FirstGame       bool    // OnReadyOpenFirstTableGame seen and not yet handled
+	Stall           string  // why the driver gave up ("" = fine)
+	StepWait        time.Duration
+	Trace           []string // abstract trace for fingerprints
+	LabelSet        map[string]bool
+	CreateErr       error
+	lastDecisionKey string
+	backlog         []*Event // consumed by hooks, still owed to the driver
+	SkipAct         bool     // the current turn was already played by a hook
+	Resync          bool     // skip queued decision snapshots that are older than the engine's current state
+	deckMode        int
+	deckSeed        int
 }
 
 func (s *Sim) Label(l string) { s.LabelSet[l] = true }
@@ -493,6 +495,7 @@ func New(ch *choose.Recorder, cfg Config, hooks Hooks) *Sim {
 		}
 	}
 	s.Drain()
+	s.backlog = nil
 	return s
 }
 
@@ -543,8 +546,13 @@ func (s *Sim) dispatch(ev *Event) {
 	}
 }
 
-// Next pops and dispatches the next event (nil on timeout).
-func (s *Sim) Next(timeout time.Duration) *Event {
+// Event consumption. The driver (PlayHand / DriveHand / awaitFence / set-up waits)
+// reads events through nextD / waitForD. Hooks use Next / Drain / WaitFor: what
+// they consume is dispatched to the monitors once and kept in a backlog, so the
+// driver still finds every hand snapshot, settlement and fence in order even
+// when a hook drained the queue while the engine was publishing.
+
+func (s *Sim) popDispatch(timeout time.Duration) *Event {
 	ev := s.q.pop(timeout)
 	if ev != nil {
 		s.dispatch(ev)
@@ -552,22 +560,54 @@ func (s *Sim) Next(timeout time.Duration) *Event {
 	return ev
 }
 
-// Drain dispatches everything already queued without waiting.
+// Next pops and dispatches the next event on behalf of a hook (nil on timeout).
+func (s *Sim) Next(timeout time.Duration) *Event {
+	ev := s.popDispatch(timeout)
+	if ev != nil {
+		s.backlog = append(s.backlog, ev)
+	}
+	return ev
+}
+
+// nextD returns the next event for the driver: backlog first (already dispatched).
+func (s *Sim) nextD(timeout time.Duration) *Event {
+	if len(s.backlog) > 0 {
+		ev := s.backlog[0]
+		s.backlog = s.backlog[1:]
+		return ev
+	}
+	return s.popDispatch(timeout)
+}
+
+// Drain dispatches everything already queued without waiting (hook side).
 func (s *Sim) Drain() {
 	for s.q.pending() > 0 {
 		s.Next(0)
 	}
 }
 
-// WaitFor dispatches events until pred holds for one (returned) or timeout.
+// WaitFor dispatches events until pred holds for one (returned) or timeout (hook side).
 func (s *Sim) WaitFor(timeout time.Duration, pred func(ev *Event) bool) *Event {
+	return s.waitFor(timeout, pred, false)
+}
+
+func (s *Sim) waitForD(timeout time.Duration, pred func(ev *Event) bool) *Event {
+	return s.waitFor(timeout, pred, true)
+}
+
+func (s *Sim) waitFor(timeout time.Duration, pred func(ev *Event) bool, driver bool) *Event {
 	deadline := time.Now().Add(timeout)
 	for {
 		remain := time.Until(deadline)
 		if remain < 0 {
 			remain = 0
 		}
-		ev := s.Next(remain)
+		var ev *Event
+		if driver {
+			ev = s.nextD(remain)
+		} else {
+			ev = s.Next(remain)
+		}
 		if ev == nil {
 			return nil
 		}
@@ -576,6 +616,45 @@ func (s *Sim) WaitFor(timeout time.Duration, pred func(ev *Event) bool) *Event {
 		}
 	}
 }
+
+// Quiesce waits until the engine has published everything it is going to publish
+// without further input: the table carries the very hand state the game wrapper
+// holds (the updater goroutine has caught up), the engine lock is free and no event
+// arrived for a moment. Returns false after the timeout.
+func (s *Sim) Quiesce(timeout time.Duration) bool {
+	deadline := time.Now().Add(timeout)
+	stable := 0
+	last := -1
+	for time.Now().Before(deadline) {
+		caught := true
+		if g := s.TE.GetGame(); g != nil {
+			tgs := s.TE.GetTable().State.GameState
+			if tgs != nil && tgs != g.GetGameState() {
+				caught = false
+			}
+		}
+		if caught && pokertable.VerifTryLock(s.TE) {
+			cur := s.q.total()
+			if cur == last {
+				stable++
+				if stable >= 2 {
+					return true
+				}
+			} else {
+				stable = 0
+			}
+			last = cur
+		} else {
+			stable = 0
+		}
+		time.Sleep(300 * time.Microsecond)
+	}
+	return false
+}
+
+// DropBacklog forgets what hooks consumed (used when a hook itself moved the hand
+// on and hands the driver a fresh snapshot with PushSnapshot).
+func (s *Sim) DropBacklog() { s.backlog = nil }
 
 // PushSnapshot enqueues a synthetic GameUpdated event carrying the engine's current
 // table (used after a hook consumed the queue, e.g. a concurrent burst, so that the
